@@ -1234,9 +1234,15 @@ def explore(fn, shard=None, max_paths=None, deadline=None, on_path=None,
             if max_paths is not None and ctx.paths >= max_paths:
                 status = "budget: max_paths=%d reached" % max_paths
                 break
-            if deadline is not None and time.time() > deadline:
-                status = "budget: deadline reached"
-                break
+            if deadline is not None:
+                dl = deadline() if callable(deadline) else deadline
+                if isinstance(dl, tuple):           # (time, reason): stop early for another reason
+                    if time.time() > dl[0]:
+                        status = dl[1]
+                        break
+                elif time.time() > dl:
+                    status = "budget: deadline reached"
+                    break
             prefix = stack.pop()
             if before_path is not None:
                 before_path()
